@@ -156,6 +156,13 @@ pub fn all(data: &Value, args: &Vec<&Value>) -> Result<Value, Error> {
     // if it's an object, in case it evaluates to a string or array, which
     // we will then pass on
 
+    // Only the elements of a literal array are rule text that still needs
+    // evaluating. The elements of a computed collection are data.
+    let items_are_rule_text = match first_arg {
+        Value::Array(_) => true,
+        _ => false,
+    };
+
     let _new_item: Value;
     let potentially_evaled_first_arg = match first_arg {
         Value::Object(_) => {
@@ -211,11 +218,15 @@ pub fn all(data: &Value, args: &Vec<&Value>) -> Result<Value, Error> {
             if !res {
                 return Ok(false);
             };
-            let _parsed_item = Parsed::from_value(i)?;
             // Evaluate each item as we go, in case we can short-circuit
-            let evaluated_item = _parsed_item.evaluate(data)?;
+            let evaluated_item: Value = if items_are_rule_text {
+                let _parsed_item = Parsed::from_value(i)?;
+                _parsed_item.evaluate(data)?.into()
+            } else {
+                i.clone()
+            };
             Ok(logic::truthy_from_evaluated(
-                &predicate.evaluate(&evaluated_item.into())?,
+                &predicate.evaluate(&evaluated_item)?,
             ))
         })
     })?;
@@ -237,6 +248,13 @@ pub fn some(data: &Value, args: &Vec<&Value>) -> Result<Value, Error> {
     // the items fail to match the predicate. However, we will parse
     // if it's an object, in case it evaluates to a string or array, which
     // we will then pass on
+
+    // Only the elements of a literal array are rule text that still needs
+    // evaluating. The elements of a computed collection are data.
+    let items_are_rule_text = match first_arg {
+        Value::Array(_) => true,
+        _ => false,
+    };
 
     let _new_item: Value;
     let potentially_evaled_first_arg = match first_arg {
@@ -293,11 +311,15 @@ pub fn some(data: &Value, args: &Vec<&Value>) -> Result<Value, Error> {
             if res {
                 return Ok(true);
             };
-            let _parsed_item = Parsed::from_value(i)?;
             // Evaluate each item as we go, in case we can short-circuit
-            let evaluated_item = _parsed_item.evaluate(data)?;
+            let evaluated_item: Value = if items_are_rule_text {
+                let _parsed_item = Parsed::from_value(i)?;
+                _parsed_item.evaluate(data)?.into()
+            } else {
+                i.clone()
+            };
             Ok(logic::truthy_from_evaluated(
-                &predicate.evaluate(&evaluated_item.into())?,
+                &predicate.evaluate(&evaluated_item)?,
             ))
         })
     })?;
